@@ -1,6 +1,6 @@
 (** Property C11 — the theorems the check counts as obligations.  Nothing but
     statements closed by [exact] and [Print Assumptions]. *)
-From HS Require Import Base.Prelude C11.Model C11.NodeProofs C11.Election.
+From HS Require Import Base.Prelude C11.Model C11.NodeProofs C11.Election C11.Refute.
 Local Open Scope Z_scope.
 
 (** Each node applies indices 1,2,3,... in order without gaps or repeats, for
@@ -44,3 +44,12 @@ Theorem c11_vote_once_per_term : forall l acts, NoDup l ->
   forall v t c c', In (v, t, c) (cast w) -> In (v, t, c') (cast w) -> c = c'.
 Proof. exact vote_once_per_term. Qed.
 Print Assumptions c11_vote_once_per_term.
+
+(** The submit-future clause is REFUTED on the faithful model (known finding
+    C11-future-keyed-by-index): a future can resolve with another leader's
+    command that was committed at the same index.  The part that does hold is
+    the last conjunct of [c11_apply_in_order]: a future only resolves with an
+    (index, command) pair that this node applied at that index. *)
+Theorem c11_submit_future_refuted : ~ submit_future_statement.
+Proof. exact submit_future_refuted. Qed.
+Print Assumptions c11_submit_future_refuted.
